@@ -25,12 +25,89 @@ _PARSE_CACHE = {}
 _NODE_CACHE = {}
 
 
+_PUA0 = 0xE000
+_META = ".^$*+?{}[]\\|()-"
+
+
+def _shape(tree, lits):
+    """structure of a parse tree with the literals in `lits` masked"""
+    def walk(x):
+        if isinstance(x, _sp.SubPattern):
+            return ["S"] + [walk(i) for i in x]
+        if isinstance(x, (list, tuple)):
+            if len(x) == 2 and (x[0] is _k.LITERAL or x[0] is _k.NOT_LITERAL) and x[1] in lits:
+                return [str(x[0]), "?"]
+            return [walk(i) for i in x]
+        return str(x)
+    return walk(tree)
+
+
+def _parse_symbolic(pattern, flags):
+    """a pattern built from symbolic text (e.g. r'\\b%s\\b' % token).  Every symbolic character is first decided (solver fork)
+    to be one of the syntax characters of the pattern language - then it is that concrete character - or none of them: then it is a
+    literal whose code point stays symbolic (matched by a solver-decided equality).  The parse must have the same structure
+    whichever letter or digit stands for the literals, otherwise the path is inconclusive."""
+    text, sym = [], {}
+    meta = _META + ("# \t\n\r\f\v" if flags & re.X else "")
+    for c in pattern.cps:
+        if isinstance(c, int):
+            text.append(chr(c))
+            continue
+        k, j = 0, len(text) - 1
+        while j >= 0 and text[j] == "\\":
+            k, j = k + 1, j - 1
+        if k % 2:
+            raise Inconclusive("symbolic character after a backslash in a regular expression pattern")
+        conc = None
+        for m in meta:
+            if truth(_s.ceq(c, ord(m))):
+                conc = m
+                break
+        if conc is not None:
+            text.append(conc)
+            continue
+        ph = _PUA0 + len(sym)
+        sym[ph] = c
+        text.append(chr(ph))
+    ptxt = "".join(text)
+    if not sym:
+        return _parse(ptxt, flags)
+    if flags & re.I or "(?i" in ptxt:
+        raise Inconclusive("case-insensitive pattern with symbolic literal characters")
+    try:
+        tree = _sp.parse(ptxt, flags)
+    except re.error as ex:
+        raise Inconclusive("pattern with symbolic characters does not parse: %s" % ex)
+    shape = _shape(tree, set(sym))
+    standin = None
+    for pool in ("abcdefghijklmnopqrstuvwxyz", "0123456789", "_~@%&"):
+        sub = [ch for ch in pool if ch not in ptxt]
+        if not sub:
+            raise Inconclusive("no neutral stand-in character for the symbolic literals of a pattern")
+        alt = "".join(sub[0] if ord(ch) in sym else ch for ch in ptxt)
+        try:
+            other = _shape(_sp.parse(alt, flags), set([ord(sub[0])]))
+        except re.error:
+            other = None
+        if other != shape:
+            raise Inconclusive("the structure of a pattern built from symbolic text depends on the text")
+        if standin is None:
+            standin = re.compile(alt, flags)       # same groups / names: serves replacement templates
+    tree.state.symx_sym = sym
+    return (tree, tree.state.flags, standin)
+
+
 def _parse(pattern, flags):
+    if isinstance(pattern, SStr):
+        if all(isinstance(c, int) for c in pattern.cps):
+            pattern = "".join(map(chr, pattern.cps))
+        else:
+            return _parse_symbolic(pattern, flags)
     key = (pattern, flags)
     hit = _PARSE_CACHE.get(key)
     if hit is None:
-        if not isinstance(pattern, str) or isinstance(pattern, SStr):
-            raise Inconclusive("symbolic or non-str regular expression pattern")
+        if not isinstance(pattern, str):
+            raise Inconclusive("non-str regular expression pattern")
         tree = _sp.parse(pattern, flags)
         hit = _PARSE_CACHE[key] = (tree, tree.state.flags, re.compile(pattern, flags))
     return hit
@@ -70,6 +147,14 @@ class _M(object):
         if pos >= self.n:
             return False
         c = self.s[pos]
+        sym = getattr(self.tree.state, "symx_sym", None)
+        if sym:
+            op, av = node
+            if (op is _k.LITERAL or op is _k.NOT_LITERAL) and av in sym:
+                f = _s.ceq(c, sym[av])
+                return truth(f) if op is _k.LITERAL else not truth(f)
+            if op is _k.IN and any(ch in repr(av) for ch in map(str, sym)):
+                raise Inconclusive("symbolic literal inside a character class")
         r = _node_ranges(node, self.tree, self.flags)
         return truth(_s.in_ranges(c, r))
 
@@ -397,6 +482,15 @@ def _findall(pattern, flags, string):
 
 def dispatch(obj, name, args, kw):
     """called by _symx_call when obj is the re module or a compiled pattern and an argument is symbolic"""
+    try:
+        return _dispatch(obj, name, args, kw)
+    except re.error:
+        raise
+    except Exception as ex:      # a failure of the matcher itself must not be taken for behaviour of the code under test
+        raise Inconclusive("symbolic regular expression matcher failed: %s: %s" % (type(ex).__name__, ex))
+
+
+def _dispatch(obj, name, args, kw):
     if isinstance(obj, _PATTERN):
         pattern, flags = obj.pattern, obj.flags & ~re.U if False else obj.flags
         # a compiled pattern's .flags already contains inline flags and re.U; parsing again with them is idempotent
